@@ -769,6 +769,10 @@ def remap_by_types(
         ) -> ast.Call:
             "Process a obj.method[param, param, ...](args) style call"
             # Fetch property, make sure it has info attached to it
+            # Nothing is known about the attributes of an untyped object: the call is passed on
+            # as it is.
+            if obj_type is Any:
+                return node
             prop = getattr(obj_type, attr_name)
             callback_info = _g_parameterized_callbacks.get(prop, None)
             if callback_info is None:
